@@ -496,6 +496,11 @@ class Categorical(Likelihood):
         Leaf-axis over which the categories are formed
     sampling_dtype : dtype, optional
         Data-type for sampling.
+    n_categories : int or tree-like structure of int, optional
+        Number of categories, i.e. the length of the input along `axis`.
+        Required for `domain`, `lsm_tangents_shape` and thus
+        `right_sqrt_metric` and metric samples to have the shape of the input;
+        if `None`, the shape of `data` is used (legacy behavior).
 
 
     See :class:`Likelihood` for details on the properties.
@@ -504,10 +509,20 @@ class Categorical(Likelihood):
     data: Any = dataclasses.field(metadata=dict(static=False))
     axis: int = -1
 
-    def __init__(self, data, axis=-1, sampling_dtype=float):
+    def __init__(self, data, axis=-1, sampling_dtype=float, n_categories=None):
         self.data = data
         self.axis = axis
-        shp = tree_map(_shape_w_fixed_dtype(sampling_dtype), data)
+
+        def shp_of(d, n):
+            shp = list(jnp.shape(d))
+            if n is not None:
+                shp[axis] = int(n)
+            return ShapeWithDtype(tuple(shp), sampling_dtype)
+
+        if n_categories is None or isinstance(n_categories, int):
+            shp = tree_map(partial(shp_of, n=n_categories), data)
+        else:
+            shp = tree_map(shp_of, data, n_categories)
         super().__init__(domain=shp, lsm_tangents_shape=shp)
 
     def energy(self, primals):
